@@ -20,7 +20,7 @@ def run(ck: Check) -> None:
     cases, info = [], []
     g = 0
     # (a) type vs role with manipulations of the unsigned part
-    for i in range(600 if ck.thorough else 120):
+    for i in range(ck.n(600, 120)):
         gpg = bool(i % 2)
         T = rng.choice(["root", "key_mgr"])
         R = rng.choice(["root", "key_mgr", "pkg_mgr"])
@@ -53,7 +53,7 @@ def run(ck: Check) -> None:
             info.append(("type", T, R))
     # (b) strip / add-junk pairs on the C01 and C05 generators
     base = []
-    for i in range(500 if ck.thorough else 110):
+    for i in range(ck.n(500, 110)):
         gpg = bool(i % 2)
         if i % 3 == 0:
             role, u, t = deleg_case(rng, gpg)
@@ -67,7 +67,7 @@ def run(ck: Check) -> None:
             thr = rng.choice(envgen.thresholds_for(rng, cnt, len(c["auth"])))
             base.append(("vsignable", c["env"], c["auth"], thr, gpg, lambda e, a=c["auth"], thr=thr, gpg=gpg: [e, a, thr, gpg]))
     # root pairs
-    for i in range(120 if ck.thorough else 30):
+    for i in range(ck.n(120, 30)):
         ks = [gen.key(j) for j in rng.sample(range(8), rng.randint(1, 3))]
         t = gen.envelope(gen.root_md(ks, rng.randint(1, len(ks)), [gen.key(9)], 1, version=1))
         nk = ks if rng.random() < 0.6 else [gen.key(j) for j in rng.sample(range(8), 2)]
